@@ -229,6 +229,16 @@ def run(ctx):
                         c1 = [c for c in o1.calls if strip_generics(cname(c)).endswith('find_or_build')]
                         if c0 and c1:
                             ok = c0[0].get('substs', [''])[0] == '()' and c1[0].get('substs', [''])[0] == 'T'
+    # ... unless T's own node is a union (an enum of newtype variants): "Unions may not immediately contain other unions",
+    # so the branches of T's union are spliced in after null - Option::append_schema looks at the kind of the node it
+    # built for T and has an arm for Union
+    flat = False
+    if b is not None:
+        for r_ in enum_regions(b, 'serde_avro_fast::schema::safe::RegularType') + enum_regions(b, 'schema::safe::RegularType'):
+            if 'Union' in r_.variants and not {'Int', 'Record'} <= set(r_.variants):
+                flat = True
+    ctx.ob('SHAPES', 'Option-of-union-is-flattened', flat, short_loc(b.span) if b else None,
+           'Option<T> inspects the node built for T and splices a union\'s branches in instead of nesting it: %s' % flat)
     ctx.ob('SHAPES', 'Option-is-null-then-T', ok, short_loc(b.span) if b else None, 'Option<T> builds the union [find_or_build::<()>(), find_or_build::<T>()] in that order: %s' % ok)
     # [u8; N] = fixed of size N
     b = imp.get('[u8; N]')
